@@ -381,7 +381,14 @@ func (vm *VirtualMachine) eval(ctx context.Context) error {
 			vm.push(object.NewClosure(fn, free))
 		case op.MakeCell:
 			symbolIndex := vm.fetch()
-			framesBack := int(vm.fetch())
+			framesBackOperand := vm.fetch()
+			if framesBackOperand == op.FreeCell {
+				// Pass on a cell the running function captured itself
+				freeVars := vm.activeFrame.fn.FreeVars()
+				vm.push(freeVars[symbolIndex])
+				continue
+			}
+			framesBack := int(framesBackOperand)
 			frameIndex := vm.fp - framesBack
 			if frameIndex < 0 {
 				return errz.EvalErrorf("eval error: no frame at depth %d", framesBack)
